@@ -271,10 +271,18 @@ noPty:
 				return nil, infraf("wait: %v", err)
 			}
 		}
-	case <-time.After(worldTimeout):
+	case <-time.After(func() time.Duration {
+		if !w.Real && w.Sched.Bubble {
+			return 20 * time.Second
+		}
+		return worldTimeout
+	}()):
 		_ = cmd.Process.Kill()
 		<-done
 		out.TimedOut = true
+		if !w.Real && w.Sched.Bubble {
+			noteBubbleStall()
+		}
 	}
 	out.WallMs = float64(time.Since(t0).Microseconds()) / 1000
 	out.Stdout, out.Stderr = so.Bytes(), se.Bytes()
